@@ -34,14 +34,26 @@ def boolStr (o : Oracle) : Skip → Bool
   | .bool b => b
   | .str s => if s ≠ [] then o.parseBool s else false
 
+/-- what the pool is keyed by: `encodeConfig(config).hash()` - the CA, the file, the refresh interval and the MEANING
+    of skip-verify (`BoolStrValue`), not its spelling: unset, false, "false" and an unparsable string are one key -/
+structure Key where
+  caInline : Str
+  caFile : Str
+  skip : Bool
+  interval : Int
+  deriving Repr, BEq, DecidableEq
+
+def keyOf (o : Oracle) (s : Settings) : Key :=
+  { caInline := s.caInline, caFile := s.caFile, skip := boolStr o s.skip, interval := s.interval }
+
 structure Watcher where
-  id : Settings × Str        -- (pool entry, path): the reader ID after 6ef1ffe
+  id : Key × Str             -- (pool entry, path): the reader ID after 6ef1ffe
   alive : Bool
   data : Str
   deriving Repr, BEq, DecidableEq
 
 structure State where
-  pool : List (Settings × Trust)
+  pool : List (Key × Trust)
   watchers : List Watcher
   files : Str → Option Str   -- path ↦ content (none: unreadable)
 
@@ -51,11 +63,11 @@ inductive LoadResult where
   | error
   deriving Repr, BEq, DecidableEq
 
-def lookupPool (p : List (Settings × Trust)) (s : Settings) : Option Trust :=
+def lookupPool (p : List (Key × Trust)) (s : Key) : Option Trust :=
   (p.find? (fun e => decide (e.1 = s))).map (·.2)
 
 /-- `WatchFile`: supersede the watcher with the same id, read the file, start a new watcher if interval > 0 -/
-def watchFile (st : State) (s : Settings) : State × Option Str :=
+def watchFile (st : State) (s : Key) : State × Option Str :=
   let wid := (s, s.caFile)
   let ws := st.watchers.map fun w => if w.id = wid then { w with alive := false } else w
   match st.files s.caFile with
@@ -67,17 +79,17 @@ def watchFile (st : State) (s : Settings) : State × Option Str :=
 /-- `LoadTLSConfig` -/
 def load (o : Oracle) (st : State) (s : Settings) : State × LoadResult :=
   if s.caInline = [] ∧ s.caFile = [] ∧ s.skip = .unset then (st, .noConfig)
-  else match lookupPool st.pool s with
+  else match lookupPool st.pool (keyOf o s) with
     | some t => (st, .cfg t)
     | none =>
-      if s.caInline ≠ [] then finish st s s.caInline false
+      if s.caInline ≠ [] then finish st (keyOf o s) s.caInline false
       else if s.caFile ≠ [] then
-        match watchFile st s with
+        match watchFile st (keyOf o s) with
         | (st', none) => (st', .error)
-        | (st', some data) => finish st' s data false
-      else finish st s [] (boolStr o s.skip)
+        | (st', some data) => finish st' (keyOf o s) data false
+      else finish st (keyOf o s) [] (boolStr o s.skip)
 where
-  finish (st : State) (s : Settings) (ca : Str) (insecure : Bool) : State × LoadResult :=
+  finish (st : State) (s : Key) (ca : Str) (insecure : Bool) : State × LoadResult :=
     if ca ≠ [] then
       if o.pemOk ca then
         let t : Trust := { insecure := insecure, extra := some ca }
@@ -88,7 +100,7 @@ where
       ({ st with pool := st.pool ++ [(s, t)] }, .cfg t)
 
 /-- `updateCA(id, data)` -/
-def updateCA (o : Oracle) (pool : List (Settings × Trust)) (s : Settings) (data : Str) : List (Settings × Trust) :=
+def updateCA (o : Oracle) (pool : List (Key × Trust)) (s : Key) (data : Str) : List (Key × Trust) :=
   if o.pemOk data then pool.map fun e => if e.1 = s then (e.1, { e.2 with extra := some data }) else e
   else pool
 
